@@ -35,7 +35,7 @@ ASSUMPTIONS = [
     "joblib/loky service threads are reported, not judged (no black_it frame on their stack)",
     "RL scheduler with a saving folder cannot run at all (known finding rl-scheduler-not-checkpointable under C04): that combination is counted, not enumerated",
 ]
-REQUIRED_COUNTERS = {"faults_injected": 250, "faults_model": 80, "faults_loss": 60, "faults_sampler": 60, "faults_rl": 60, "faults_njobs2": 20,
+REQUIRED_COUNTERS = {"faults_injected": 250, "faults_model": 80, "faults_loss": 40, "faults_sampler": 40, "faults_rl": 60, "faults_njobs2": 20,
                      "faults_with_folder": 60, "reuse_ok": 200, "child_process_exits": 2}
 SHARDS = {"quick": 16, "thorough": 16}
 SHARD_WATCHDOG = {"quick": 900, "thorough": 7200}
